@@ -34,56 +34,174 @@ func NewCond(l Locker) *Cond { return sync.NewCond(l) }
 
 func OnceFunc(f func()) func() { return sync.OnceFunc(f) }
 
-type Mutex struct{ mu sync.Mutex }
+// Mutex and RWMutex are implemented on channels rather than on the runtime's
+// semaphores: a goroutine waiting for one is then *durably blocked* in the
+// sense of testing/synctest (it waits on a channel made inside the bubble),
+// so a bubble in which goroutines wait for each other's mutexes becomes
+// quiescent like any other and the consequence (no convergence, Stop does not
+// return) is judged in virtual time - instead of the bubble never becoming
+// quiescent and a wall-clock watchdog having to call it a hang. It also means
+// that a parking point may hold a mutex. Hand-over is first come, first
+// served; a waiting writer keeps later readers out, as in package sync.
+type Mutex struct {
+	mu      sync.Mutex
+	locked  bool
+	waiters []chan struct{}
+}
 
 func (m *Mutex) Lock() {
 	acquire(uintptr(unsafe.Pointer(m)), true)
 	m.mu.Lock()
-}
-func (m *Mutex) Unlock() {
-	release(uintptr(unsafe.Pointer(m)))
-	m.mu.Unlock()
-}
-func (m *Mutex) TryLock() bool {
-	if m.mu.TryLock() {
-		hold(uintptr(unsafe.Pointer(m)), true)
-		return true
+	if !m.locked {
+		m.locked = true
+		m.mu.Unlock()
+		return
 	}
-	return false
+	w := make(chan struct{})
+	m.waiters = append(m.waiters, w)
+	m.mu.Unlock()
+	<-w // ownership is handed over by Unlock
 }
 
-type RWMutex struct{ mu sync.RWMutex }
+func (m *Mutex) Unlock() {
+	release(uintptr(unsafe.Pointer(m)))
+	m.mu.Lock()
+	if !m.locked {
+		m.mu.Unlock()
+		panic("sync: unlock of unlocked mutex")
+	}
+	if len(m.waiters) > 0 {
+		w := m.waiters[0]
+		m.waiters = m.waiters[1:]
+		m.mu.Unlock()
+		close(w)
+		return
+	}
+	m.locked = false
+	m.mu.Unlock()
+}
+
+func (m *Mutex) TryLock() bool {
+	m.mu.Lock()
+	defer m.mu.Unlock()
+	if m.locked {
+		return false
+	}
+	m.locked = true
+	hold(uintptr(unsafe.Pointer(m)), true)
+	return true
+}
+
+type rwWaiter struct {
+	ch    chan struct{}
+	write bool
+}
+
+type RWMutex struct {
+	mu      sync.Mutex
+	writer  bool
+	readers int
+	queue   []rwWaiter
+}
+
+// grant hands the lock to the head of the queue (and to the readers right
+// behind a reader). Called with m.mu held.
+func (m *RWMutex) grant() {
+	for len(m.queue) > 0 {
+		h := m.queue[0]
+		if h.write {
+			if m.readers == 0 && !m.writer {
+				m.writer = true
+				m.queue = m.queue[1:]
+				close(h.ch)
+			}
+			return
+		}
+		if m.writer {
+			return
+		}
+		m.readers++
+		m.queue = m.queue[1:]
+		close(h.ch)
+	}
+}
 
 func (m *RWMutex) Lock() {
 	acquire(uintptr(unsafe.Pointer(m)), true)
 	m.mu.Lock()
+	if !m.writer && m.readers == 0 && len(m.queue) == 0 {
+		m.writer = true
+		m.mu.Unlock()
+		return
+	}
+	w := rwWaiter{make(chan struct{}), true}
+	m.queue = append(m.queue, w)
+	m.mu.Unlock()
+	<-w.ch
 }
+
 func (m *RWMutex) Unlock() {
 	release(uintptr(unsafe.Pointer(m)))
+	m.mu.Lock()
+	if !m.writer {
+		m.mu.Unlock()
+		panic("sync: Unlock of unlocked RWMutex")
+	}
+	m.writer = false
+	m.grant()
 	m.mu.Unlock()
 }
+
 func (m *RWMutex) RLock() {
 	acquire(uintptr(unsafe.Pointer(m)), false)
-	m.mu.RLock()
+	m.mu.Lock()
+	if !m.writer && len(m.queue) == 0 {
+		m.readers++
+		m.mu.Unlock()
+		return
+	}
+	w := rwWaiter{make(chan struct{}), false}
+	m.queue = append(m.queue, w)
+	m.mu.Unlock()
+	<-w.ch
 }
+
 func (m *RWMutex) RUnlock() {
 	release(uintptr(unsafe.Pointer(m)))
-	m.mu.RUnlock()
+	m.mu.Lock()
+	if m.readers <= 0 {
+		m.mu.Unlock()
+		panic("sync: RUnlock of unlocked RWMutex")
+	}
+	m.readers--
+	if m.readers == 0 {
+		m.grant()
+	}
+	m.mu.Unlock()
 }
+
 func (m *RWMutex) TryLock() bool {
-	if m.mu.TryLock() {
-		hold(uintptr(unsafe.Pointer(m)), true)
-		return true
+	m.mu.Lock()
+	defer m.mu.Unlock()
+	if m.writer || m.readers > 0 || len(m.queue) > 0 {
+		return false
 	}
-	return false
+	m.writer = true
+	hold(uintptr(unsafe.Pointer(m)), true)
+	return true
 }
+
 func (m *RWMutex) TryRLock() bool {
-	if m.mu.TryRLock() {
-		hold(uintptr(unsafe.Pointer(m)), false)
-		return true
+	m.mu.Lock()
+	defer m.mu.Unlock()
+	if m.writer || len(m.queue) > 0 {
+		return false
 	}
-	return false
+	m.readers++
+	hold(uintptr(unsafe.Pointer(m)), false)
+	return true
 }
+
 func (m *RWMutex) RLocker() Locker { return (*rlocker)(m) }
 
 type rlocker RWMutex
